@@ -186,7 +186,7 @@ def jobs(tier: str, seed: int):
                        "program; original and transformed DAG are evaluated at a symbolic index over uninterpreted "
                        "inputs (eval_pytato) and compared by CrossHair/z3 per output; structural clauses are concrete "
                        "side assertions (reflective fingerprint before/after, idempotence, tags-only).",
-        "bounds": {"programs": f"{len(progs)} (committed corpus{' + seeded generator' if th else ''}), <= 4 axes of "
+        "bounds": {"programs": f"{len(progs)} (committed corpus + {120 if th else 24} programs of the shape-aware seeded generator{' + 40 of the first generator' if th else ''}), <= 4 axes of "
                                "length <= 5", "transformations": TRANSFORMS, "pipelines": f"{npipe} seeded, length 2..4",
                    "inputs / indices": "all (uninterpreted inputs, symbolic index)"},
         "outside": ["integer wrap-around and float rounding (term algebra)", "programs outside the corpus/generator"],
